@@ -274,15 +274,30 @@ def run_ro_histories(histories):
                 w.op(o)
             inc = canon(w.final())
             fresh = canon(replay_fresh(ns["h"]).final())
-            return inc, fresh
+            # the dual asked for FIRST (before any new primal formulation) after the same history
+            w2 = RoWorld()
+            for o in ns["h"]:
+                w2.op(o)
+            try:
+                inc_d = canon(w2.m.do_math(primal=False))
+                fresh_d = canon(replay_fresh(ns["h"]).m.do_math(primal=False))
+            except Exception as e:                       # noqa: a history whose dual is not defined (integer model ...)
+                inc_d = fresh_d = None
+            return inc, fresh, inc_d, fresh_d
 
         def same(ns, res):
             d = canon_diff(res[0], res[1])
             ns["_diff"] = d
             return not d
+
+        def same_dual(ns, res):
+            if res[2] is None:
+                return True
+            return not canon_diff(res[2], res[3])
         label = " ; ".join("-".join(o) for o in h)
         obs, _ = check_function("rsome.ro:<history>", setup, call,
-                                [post("final-formulation-equals-from-scratch-build", same)], mode="D", label=label, bounded=True, replay=None)
+                                [post("final-formulation-equals-from-scratch-build", same),
+                                 post("dual-requested-first-equals-dual-of-from-scratch-build", same_dual)], mode="D", label=label, bounded=True, replay=None)
         for o in obs:
             if o["status"] != "discharged":
                 o["reason"] = (o.get("reason") or "") + " | " + "; ".join(setup_diff(h))
